@@ -14,7 +14,7 @@ def tu_check(tu):
 
 def run(tier="quick", seed=0, use_cache=True):
     res = engine.Result("C03")
-    res.rules = ["SIZE-WIRING", "SPLIT-POINT", "UNLINK-STATUS", "PY-UNLINK-STATUS", "SPLIT-COMMIT", "FIRSTBUCKET-INV"]
+    res.rules = ["SIZE-WIRING", "SPLIT-POINT", "UNLINK-STATUS", "PY-UNLINK-STATUS", "SPLIT-COMMIT", "FIRSTBUCKET-INV", "PY-DEL-TAIL"]
     res.explanation = (
         "Structural necessary conditions of the tree invariants, extracted "
         "from the code of both implementations and compared with the "
@@ -52,6 +52,8 @@ def run(tier="quick", seed=0, use_cache=True):
     res.extra["split_commit_accepted_idioms"] = out["OO"]["split"]["stats"]["accepted"]
     sizes.py_check(res, out["OO"]["sizes"]["facts"])
     unlink.py_rules(res)
+    from ..rules import pydeltail
+    pydeltail.py_check(res)
     res.units = {"translation_units": len(out)}
     res.samples = [{"rule": "SIZE-WIRING", "c_facts": out["OO"]["sizes"]["facts"]},
                    {"rule": "UNLINK-STATUS", "c_facts": out["OO"]["unlink"]["facts"]}]
